@@ -50,7 +50,7 @@ func C20(c *Ctx) {
 	r := c.R
 	r.Rule("R20.1", "delivery guard: every send of a commit event on commitC (raft mint via publishEntries, raft snapshot recovery, solo proposal loop) lies behind the edge height == lastExec+1 and is followed, before the next possible send, by the update of lastExec.")
 	r.Rule("R20.2", "skip rule: in publishEntries a block is minted only when the recorded applied index is below the entry's index; the durable applied index is written only by reportState, which is reachable only from the stateC receive of the raft main loop (after the executor reported the block persisted).")
-	r.Rule("R20.3", "leader reset: on justElected the mempool's batch sequence number is reset to lastExec in the Ready handling; every batch-generation site of the raft node is behind an isLeader() test.")
+	r.Rule("R20.3", "leader reset: on justElected the mempool's batch sequence number is reset to lastExec in the Ready handling; every batch-generation site of the raft node is behind an isLeader() test; the pool's SetBatchSeqNo takes over its argument on every path (also a lower one).")
 	r.Rule("R20.4", "applied-index value: the index persisted by reportState is the one looked up in blockAppliedIndex under the reported state's height, and publishEntries records (batch height -> index of the entry that carried it).")
 	r.Rule("R20.5", "pool confinement: the transaction pool's unsynchronised methods (GetTransaction, ProcessTransactions, GenerateBlock, CommitTransactions, ...) are called from exactly one goroutine root per ordering node (the main event loop).")
 	r.Rule("R20.7", "the snapshot names the log position it is paired with: the payload handed to TakeSnapshot(appliedIndex, ..) carries the height minted from the entries up to that index (n.lastExec), set in getSnapshot from that field and from nothing the executor or the ledger reports - their height lags behind the minted height under load, and a follower restored from such a snapshot would re-mint heights it already has or skip blocks.")
@@ -228,6 +228,28 @@ func C20(c *Ctx) {
 			n += c.behindEdges("R20.3", "listenRaftMsg", lr, jeEdges(lr), isCallG, "justElected", shortFn(g)+" (which resets the batch sequence number to lastExec)")
 		}
 		r.Floor("R20.3", "leader reset sites", n, 1)
+	}
+	// the reset is effective: SetBatchSeqNo stores its argument on every path (a lower value too - a re-elected
+	// leader resets to lastExec, which is below the number its dropped batches had reached)
+	if sb := c.fn("R20.3", "pkg/order/mempool.(*mempoolImpl).SetBatchSeqNo"); sb != nil && len(sb.Params) >= 2 {
+		arg := sb.Params[1]
+		isSet := func(in ssa.Instruction) bool {
+			st, ok := in.(*ssa.Store)
+			if !ok {
+				return false
+			}
+			_, f, _, okf := core.FieldOf(st.Addr)
+			return okf && f == "batchSeqNo" && core.Strip(st.Val) == ssa.Value(arg)
+		}
+		rs := core.Reach([]core.Point{core.EntryOf(sb)}, isSet, nil)
+		skipped := false
+		for _, ret := range core.Returns(sb) {
+			if rs.Has(ret) {
+				skipped = true
+			}
+		}
+		r.Check(!skipped && len(sites(sb, isSet)) > 0, "R20.3", "SetBatchSeqNo assigns its argument on every path", c.P.Pos(sb.Pos()), "batchSeqNo = batchSeq unconditionally",
+			"SetBatchSeqNo can return without taking over the given number (e.g. it ignores a lower value): the reset of a re-elected leader to lastExec is dropped, its next batch carries a height above lastExec+1 and every replica discards it - ordering stops delivering")
 	}
 	nGen := 0
 	for _, name := range []string{"processBatchTimeout", "processGenerateBlockTimeout", "processTransactions"} {
